@@ -70,16 +70,24 @@ pub trait MaybeClone: Sized {
     fn try_clone(&self) -> Option<Self> {
         None
     }
+    /// `Clone::clone_from`
+    fn try_clone_from(&mut self, _source: &Self) {}
 }
 
 impl<'a, T: Send + Sync> MaybeClone for ConIterOfSlice<'a, T> {
     fn try_clone(&self) -> Option<Self> {
         Some(self.clone())
     }
+    fn try_clone_from(&mut self, source: &Self) {
+        self.clone_from(source)
+    }
 }
 impl MaybeClone for ConIterOfRange<usize> {
     fn try_clone(&self) -> Option<Self> {
         Some(self.clone())
+    }
+    fn try_clone_from(&mut self, source: &Self) {
+        self.clone_from(source)
     }
 }
 impl<T: Send + Sync> MaybeClone for ConIterOfVec<T> {}
@@ -399,7 +407,11 @@ where
             None => untracked(|| "ret end".to_string()),
         },
         OpKind::Skip => {
-            it.skip_to_end();
+            if rt::RAWSKIP.load(std::sync::atomic::Ordering::Relaxed) {
+                AtomicIter::early_exit(it);
+            } else {
+                it.skip_to_end();
+            }
             untracked(|| "ret unit".to_string())
         }
         OpKind::Len => match it.try_get_len() {
@@ -420,7 +432,23 @@ where
             None => untracked(|| "ret got none".to_string()),
         },
         OpKind::Clone(j) => {
-            let c = match it.try_clone() {
+            let cloned = if rt::CLONEFROM.load(std::sync::atomic::Ordering::Relaxed) {
+                // the target: an iterator over the same source that is ahead of `it` (skipped to its end), made silently
+                let tgt = rt::with_silent(|| {
+                    let t = it.try_clone();
+                    if let Some(t) = &t {
+                        t.skip_to_end();
+                    }
+                    t
+                });
+                tgt.map(|mut t| {
+                    t.try_clone_from(it);
+                    t
+                })
+            } else {
+                it.try_clone()
+            };
+            let c = match cloned {
                 Some(c) => c,
                 None => {
                     set_track(false);
@@ -568,6 +596,8 @@ where
         Src::Range(..) => 0,
     };
     rt::CLONEPOINT.store(case.clonepoint, std::sync::atomic::Ordering::Relaxed);
+    rt::RAWSKIP.store(case.rawskip, std::sync::atomic::Ordering::Relaxed);
+    rt::CLONEFROM.store(case.clonefrom, std::sync::atomic::Ordering::Relaxed);
     rt::begin_case(nt, iter_kind, case.clonepanic, case.droppanic, src_len);
 
     let mut slots: Vec<OnceLock<I>> = (0..NSLOTS).map(|_| OnceLock::new()).collect();
